@@ -130,6 +130,22 @@ func (g *ExprGen) pickTarget() target {
 		}
 		return g.perturb(target{parts: []string{b.name}, node: b.sample})
 	}
+	if g.intn(12, "plantAbsent") == 0 {
+		// an absent key directly under a map that exists: the "not present" case
+		var maps []ref.PathEntry
+		for _, pe := range g.Paths {
+			if s := settle(pe.Node); s != nil && s.T.K == uni.KMap && usable(pe.Parts) {
+				maps = append(maps, pe)
+			}
+		}
+		if len(maps) > 0 {
+			pe := maps[g.intn(len(maps), "absentUnder")]
+			parts := append(append([]string(nil), pe.Parts...), absentKeys[g.intn(len(absentKeys), "abs")])
+			if usable(parts) {
+				return target{parts: parts}
+			}
+		}
+	}
 	for try := 0; try < 6 && len(g.Paths) > 0; try++ {
 		pe := g.Paths[g.intn(len(g.Paths), "path")]
 		if usable(pe.Parts) {
@@ -143,6 +159,10 @@ func (g *ExprGen) perturb(t target) target {
 	c := g.intn(100, "perturb")
 	if c < 75 {
 		return t
+	}
+	if g.intn(3, "perturbKeep") > 0 {
+		// two thirds of the perturbations are absent leaves (decisive under maps)
+		c = 75 + g.intn(15, "absentKind")
 	}
 	parts := append([]string(nil), t.parts...)
 	var out target
@@ -217,7 +237,7 @@ func settle(n *uni.Node) *uni.Node {
 func (g *ExprGen) literalFor(n *uni.Node, op bx.Op) string {
 	n = settle(n)
 	c := g.intn(100, "litclass")
-	if n == nil || c >= 85 {
+	if n == nil || c >= 92 {
 		return wrongLits[g.intn(len(wrongLits), "wl")]
 	}
 	pos := op &^ 1
@@ -358,7 +378,7 @@ var allOps = []bx.Op{bx.OpEq, bx.OpNe, bx.OpIn, bx.OpNotIn, bx.OpEmpty, bx.OpNot
 // opFor draws an operator, biased to those applicable to node n.
 func (g *ExprGen) opFor(n *uni.Node) bx.Op {
 	n = settle(n)
-	if n == nil || g.intn(10, "anyop") < 3 {
+	if n == nil || g.intn(20, "anyop") < 3 {
 		return allOps[g.intn(len(allOps), "op")]
 	}
 	var cands []bx.Op
@@ -366,9 +386,9 @@ func (g *ExprGen) opFor(n *uni.Node) bx.Op {
 	case k.IsStringLike():
 		cands = allOps
 	case k.IsScalar():
-		cands = []bx.Op{bx.OpEq, bx.OpNe, bx.OpEq, bx.OpNe, bx.OpIn, bx.OpEmpty, bx.OpMatches}
+		cands = []bx.Op{bx.OpEq, bx.OpNe}
 	case k.IsList(), k == uni.KMap:
-		cands = []bx.Op{bx.OpIn, bx.OpNotIn, bx.OpIn, bx.OpNotIn, bx.OpEmpty, bx.OpNotEmpty, bx.OpEq, bx.OpMatches, bx.OpNotMatches}
+		cands = []bx.Op{bx.OpIn, bx.OpNotIn, bx.OpIn, bx.OpNotIn, bx.OpIn, bx.OpNotIn, bx.OpEmpty, bx.OpNotEmpty, bx.OpEmpty, bx.OpNotEmpty, bx.OpEq}
 	default:
 		cands = allOps
 	}
